@@ -665,3 +665,26 @@ impl Send {
         self.is_extended_connect_protocol_enabled
     }
 }
+
+#[cfg(feature = "verif-hooks")]
+impl Send {
+    /// Read-only dump (verification hook).
+    pub(super) fn verif_dump(
+        &self,
+        store: &Store,
+        out: &mut Vec<(&'static str, i64)>,
+        queues: &mut Vec<(&'static str, Vec<u32>)>,
+    ) {
+        out.push((
+            "send_next_stream_id",
+            match self.next_stream_id {
+                Ok(id) => u32::from(id) as i64,
+                Err(_) => -1,
+            },
+        ));
+        out.push(("send_max_stream_id", u32::from(self.max_stream_id) as i64));
+        out.push(("send_init_window_sz", self.init_window_sz as i64));
+        out.push(("send_is_push_enabled", self.is_push_enabled as i64));
+        self.prioritize.verif_dump(store, out, queues);
+    }
+}
